@@ -46,6 +46,8 @@ man = dict(
                   kind_free_text="contract-directed symbolic execution of the real pyins function objects on sympy reals / z3 terms / free-algebra words / an uninterpreted operation DAG; sidecar contracts; obligations discharged by a fraction-field normal form (sympy polys), interval arithmetic (mpmath.iv), z3 (every unsat re-run through cvc5 in the thorough tier), word normal forms, an AST freshness analysis; value-dependent branches explored path by path with native witnesses; history obligations (second call in the same world); CPython cross-check and native replay of every refutation"),
              dict(name="lean-induction", path="lean/Induction.lean", serves_properties=["C02", "C09", "C10", "C11", "C12"],
                   kind_free_text="Lean 4 + Mathlib proofs of the induction steps from the per-iteration obligations to the whole-run statements (loop rule, termination from a lexicographic variant, chunking independence of a fold, exactly-once from the cursor invariant); re-checked by `lean` in the thorough tier (Cxx.induction.mechanised)"),
+             dict(name="lean-theorems", path="lean/Psd.lean, lean/Convergence.lean, lean/Trig.lean, lean/Kalman.lean", serves_properties=["C01", "C07", "C08", "C11", "C17"],
+                  kind_free_text="Lean 4 + Mathlib proofs of mathematical steps that were assumed theorems: positive (semi)definiteness of the syntactic forms the checks establish on kalman.correct / compute_process_matrices (congruence, sum, PSD + PD, Joseph form for every gain, prior minus posterior), the stability half of Lax-Dahlquist (discrete Gronwall, global error <= local truncation error x (exp(LT) - 1)/L), the remainder bounds of the small-angle series of mat_from_rotvec, and -- as a second back end of the word normal form -- Joseph = short form and the Van Loan composition law in an arbitrary ring; re-checked by `lean` in the thorough tier (Cxx.psd / convergence / series / words .mechanised), listed as named assumptions in the quick tier"),
              dict(name="bounded-standins", path="props/forms.py, props/C19.py (module_purity), pvx/isolated.py", serves_properties=[c["property_id"] for c in checks],
                   kind_free_text="bounded native contracts, labelled bounded in the evidence and never counted as discharged: argument-form battery, dynamic purity contract against pristine process states, differential tests of rebound external names, float64 stand-ins of the clauses a real-arithmetic proof cannot see")],
     checks=checks,
